@@ -27,6 +27,21 @@ type Parser struct {
 	peekToken    *Token // Next token (lookahead)
 	resolver     ReferenceResolver
 	err          error // first lexical error; once set, only EOF tokens follow
+	depth        int   // arrays and dictionaries currently open
+}
+
+// maxNestingDepth bounds how deep arrays and dictionaries may nest. Real
+// documents stay far below it; without a bound a file of a few megabytes of
+// "[" exhausts the goroutine stack, which ends the process.
+const maxNestingDepth = 500
+
+// enter records one more open array or dictionary.
+func (p *Parser) enter() error {
+	if p.depth >= maxNestingDepth {
+		return fmt.Errorf("arrays and dictionaries nested more than %d deep", maxNestingDepth)
+	}
+	p.depth++
+	return nil
 }
 
 // SetReferenceResolver sets the reference resolver for the parser.
@@ -241,6 +256,10 @@ func (p *Parser) parseArray() (Object, error) {
 	if p.currentToken.Type != TokenArrayStart {
 		return nil, fmt.Errorf("expected '[', got %v", p.currentToken.Type)
 	}
+	if err := p.enter(); err != nil {
+		return nil, err
+	}
+	defer func() { p.depth-- }()
 	p.nextToken()
 
 	var arr Array
@@ -278,6 +297,10 @@ func (p *Parser) parseDict() (Object, error) {
 	if p.currentToken.Type != TokenDictStart {
 		return nil, fmt.Errorf("expected '<<', got %v", p.currentToken.Type)
 	}
+	if err := p.enter(); err != nil {
+		return nil, err
+	}
+	defer func() { p.depth-- }()
 	p.nextToken()
 
 	dict := make(Dict)
